@@ -50,7 +50,7 @@ def lanewise(spec, pre=None, scalar_pre=None):
             a = [x.lane(i) for x in ctx.args]
             ens.append(ctx.eq(R.lane(i), ctx.spec(spec, *a)))
             if pre:
-                ctx.requires.append(ctx.spec(pre, *a))
+                ctx.requires.append(ctx.spec(pre, *[x.lane_pre(i) for x in ctx.args]))
         ctx.ensures += conj(ens)
         if scalar_pre:
             ctx.requires += scalar_pre(ctx)
@@ -70,7 +70,7 @@ def _lane_count_pre(ctx):
     b = ctx.args[1]
     if b.kind == "B":
         for i in range(ctx.n):
-            out.append("%s < %d" % (b.lane(i), ctx.w))
+            out.append("%s < %d" % (b.lane_pre(i), ctx.w))
     return out
 
 
@@ -90,9 +90,9 @@ for _op in ("add", "sub"):
     row(_op, "BB", "B", types=FLOAT_TYPES, mode="ufadd", prop="C02")(lanewise(_op))
 row("mul", "BB", "B", types=INT_TYPES, mode="mul", prop="C01")(lanewise("mul"))
 row("mul", "BB", "B", types=FLOAT_TYPES, mode="uf", prop="C02")(lanewise("mul"))
-row("div", "BB", "B", types=INT_TYPES, mode="uf", prop="C01")(lanewise("div", pre="divpre"))
+row("div", "BB", "B", types=INT_TYPES, mode="mul", prop="C01")(lanewise("div", pre="divpre"))
 row("div", "BB", "B", types=FLOAT_TYPES, mode="uf", prop="C02")(lanewise("div"))
-row("mod", "BB", "B", types=INT_TYPES, mode="uf", prop="C01")(lanewise("mod", pre="divpre"))
+row("mod", "BB", "B", types=INT_TYPES, mode="mul", prop="C01")(lanewise("mod", pre="divpre"))
 row("neg", "B", "B", prop=_arith_prop)(lanewise("neg"))
 row("abs", "B", "B", prop=_arith_prop)(lanewise("abs"))
 row("incr", "B", "B", types=INT_TYPES, prop="C01")(lanewise("incr"))
@@ -219,8 +219,8 @@ for _op, _sp, _n in (("add", "add", 2), ("sub", "sub", 2), ("neg", "neg", 1), ("
     row(_op, "S" * _n, "S", types=INT_TYPES, prop="C17")(scalarwise(_sp))
 row("avgr", "SS", "S", types=INT_TYPES, prop="C17")(scalarwise("avgr", pre="avgrpre"))
 row("mul", "SS", "S", types=INT_TYPES, mode="mul", prop="C17")(scalarwise("mul"))
-row("div", "SS", "S", types=INT_TYPES, mode="uf", prop="C17")(scalarwise("div", pre="divpre"))
-row("mod", "SS", "S", types=INT_TYPES, mode="uf", prop="C17")(scalarwise("mod", pre="divpre"))
+row("div", "SS", "S", types=INT_TYPES, mode="mul", prop="C17")(scalarwise("div", pre="divpre"))
+row("mod", "SS", "S", types=INT_TYPES, mode="mul", prop="C17")(scalarwise("mod", pre="divpre"))
 for _op in ("fma", "fms", "fnma", "fnms"):
     row(_op, "SSS", "S", types=INT_TYPES, mode="mul", prop="C17")(scalarwise(_op))
 for _op, _sp in (("bitwise_lshift", "shl"), ("bitwise_rshift", "shr"), ("rotl", "rotl"), ("rotr", "rotr")):
@@ -310,9 +310,9 @@ def _float_fma(kind):
             elif kind == "fms":    # a*b - c
                 cands = [fma(a, b, nc), sub(mul(a, b), F(c)), add(mul(a, b), F(nc))]
             elif kind == "fnma":   # -(a*b) + c
-                cands = [fma(na, b, c), add(mul(na, b), F(c)), sub(F(c), mul(a, b))]
+                cands = [fma(na, b, c), fma(a, nb, c), add(mul(na, b), F(c)), sub(F(c), mul(a, b))]
             else:                  # fnms: -(a*b) - c
-                cands = [fma(na, b, nc), sub(mul(na, b), F(c)), ctx.spec("neg", fma(a, b, c))]
+                cands = [fma(na, b, nc), fma(a, nb, nc), sub(mul(na, b), F(c)), ctx.spec("neg", fma(a, b, c))]
             ens.append("(" + " || ".join(ctx.eq(R.lane(i), x) for x in cands) + ")")
         ctx.ensures += conj(ens, 2)
     return build
